@@ -151,3 +151,17 @@ func ProduceChain(ctx context.Context, spec ChainSpec, keys Keys) (*Produced, er
 	}
 	return p, nil
 }
+
+// DecodeBlobHeight classifies a genuine DA blob: it returns the block height it belongs to and
+// whether it is a signed-data blob (false: header blob). ok is false for anything else.
+func DecodeBlobHeight(blob []byte) (height uint64, isData bool, ok bool) {
+	h := new(types.SignedHeader)
+	if err := h.UnmarshalBinary(blob); err == nil && len(h.ProposerAddress) > 0 && len(h.Signature) > 0 && h.Height() > 0 {
+		return h.Height(), false, true
+	}
+	var sd types.SignedData
+	if err := sd.UnmarshalBinary(blob); err == nil && sd.Metadata != nil && len(sd.Txs) > 0 {
+		return sd.Metadata.Height, true, true
+	}
+	return 0, false, false
+}
